@@ -41,6 +41,8 @@ def discrete_outcomes(site, max_joint=64):
         p = 1.0
         for i, j in enumerate(combo):
             p *= per_lane[i][1][j]
+        if p <= 0.0:
+            continue  # impossible outcomes are not part of the tree
         vals.append(v.astype(np.dtype(site["dtype"])))
         probs.append(p)
     return vals, probs
